@@ -244,6 +244,45 @@ def run_items(case):
             if res > 1e-7 * np.abs(K1).max() * max(np.abs(vals).max(), 1e-300):
                 bad(lab + "/pair", "extracted (shape, frequency) after re-evaluation is not an eigenpair of the current pencil", float(res), 0, 1e-7)
             nontrivial.append(lab)
+    # one long-lived job whose ITEMS change between two evaluations (same unknowns): the density of a body, a second body
+    # appended to / replaced in the item list, the stiffness multiplier -- every ordered pair of changes; the second evaluation
+    # must return eigenpairs of the pencil assembled from the items as they are THEN
+    def mkbody(E_, rho_, mult_=None):
+        return fem.SolidBody(fem.LinearElasticLargeStrain(E=E_, nu=0.3), field, density=rho_, multiplier=mult_)
+
+    changes = {
+        "density x4": lambda its: setattr(its[0], "density", its[0].density * 4.0),
+        "append body": lambda its: its.append(mkbody(0.7, 2.5)),
+        "replace body": lambda its: its.__setitem__(0, mkbody(3.0, 0.4)),
+        "multiplier 2.5": lambda its: setattr(its[0].assemble, "multiplier", 2.5),
+    }
+    live = dict(Bs["left"])
+    dof0, dof1 = fem.dof.partition(field, live)
+    for ch1, ch2 in itertools.product(changes, repeat=2):
+        its = [mkbody(1.0, 1.0)]
+        job = fem.FreeVibration(its, live)
+        for stage, ch in (("initial", None), (ch1, ch1), (ch1 + " > " + ch2, ch2)):
+            if ch is not None:
+                changes[ch](its)
+            job.evaluate(x0=field, k=3, v0=1.0 + zoo.offarr(seed, 1503, (len(dof1),)))
+            st["trans"] += 1
+            Kc, Mc = np.zeros((len(dof1),) * 2), np.zeros((len(dof1),) * 2)
+            for it in its:
+                fresh = fem.SolidBody(it.umat, field, density=it.density)
+                m_ = it.assemble.multiplier
+                Kc += (m_ if m_ is not None else 1.0) * fresh.assemble.matrix(field).toarray()[np.ix_(dof1, dof1)]
+                Mc += fresh.assemble.mass().toarray()[np.ix_(dof1, dof1)]
+            lam_, V = np.asarray(job.eigenvalues), np.asarray(job.eigenvectors)
+            st["traces"] += 1
+            worst = max(np.abs(Kc @ V[:, j] - lam_[j] * (Mc @ V[:, j])).max() / (np.abs(Kc).max() * np.abs(V[:, j]).max()) for j in range(3))
+            if worst > 1e-7:
+                bad(f"item-history/{stage}", "pairs returned by a job that is evaluated again after its items changed are not eigenpairs of the pencil assembled from the current items", float(worst), 0, 1e-7)
+                break
+            dense = sla.eigh(Kc, Mc, eigvals_only=True)[:3]
+            if np.abs(np.sort(lam_) - dense).max() > 1e-7 * abs(dense[-1]):
+                bad(f"item-history/{stage}/spectrum", "eigenvalues after the items changed vs the dense pencil of the current items", np.sort(lam_).tolist(), dense.tolist(), 1e-7)
+                break
+            nontrivial.append(f"item-history/{stage}")
     for sel, lst in spectra.items():
         for lab, sp in lst[1:]:
             st["traces"] += 1
